@@ -20,7 +20,7 @@ import copy as _copy
 from hypothesis import strategies as st
 
 from pv.core import MachineSub, Violation, call, call_or, must_raise, check, short
-from pv.codec import build, s_scalar
+from pv.codec import build, s_scalar, D0
 
 ASSUMPTIONS = [
     'cells are None, ints, finite floats, strings and datetimes (no NaN: == on NaN would make the comparison with the model ambiguous; no bools, containers)',
@@ -169,6 +169,39 @@ _records = st.one_of(
     st.tuples(st.lists(_name, max_size=4, unique=True), st.integers(0, 5), st.lists(_cell, min_size=20, max_size=20)).map(
         lambda t: [[[c, t[2][(i * len(t[0]) + j) % 20]] for j, c in enumerate(t[0])] for i in range(t[1])]),
 )
+
+
+def _cv(c, i, kind):
+    """a cell spec that tells column c (and row i) apart from every other column: a swap between columns is visible"""
+    j = (NAMES + FRESH).index(c) + 1 if c in NAMES + FRESH else 20
+    if kind == 'mixed':
+        kind = ['int', 'str', 'float', 'dt'][(i + j) % 4]
+    if kind == 'int':
+        return 100 * j + i
+    if kind == 'str':
+        return '%s%i' % (c, i)
+    if kind == 'float':
+        return j + i / 16.0
+    return ['dt', D0 + 40 * j + i, 0]
+
+
+@st.composite
+def _permuted_records(draw):
+    """records over one key set, every record written in its own (independent) key order; optionally ragged; cells distinguishable per column"""
+    keys = draw(st.lists(_name, min_size=2, max_size=4, unique=True))
+    n = draw(st.integers(2, 5))
+    ragged = draw(st.sampled_from([False, False, False, True]))
+    kind = draw(st.sampled_from(['int', 'str', 'float', 'dt', 'mixed']))
+    recs = []
+    for i in range(n):
+        order = list(draw(st.permutations(keys)))
+        if ragged:
+            order = order[:draw(st.integers(1, len(order)))]
+        recs.append([[c, _cv(c, i, kind)] for c in order])
+    return recs
+
+
+_records = st.one_of(_records, _permuted_records())
 _sl = st.one_of(st.none(), st.integers(-7, 7))
 _step = st.one_of(st.none(), st.sampled_from([-3, -2, -1, 1, 2, 3]))
 
@@ -207,8 +240,9 @@ class Tables(object):
         'do': dict(t=_t, fn=st.sampled_from(sorted(F1)), fn2=st.sampled_from(sorted(F1)), f2=st.sampled_from(sorted(F2)), cols=st.lists(_ci, min_size=1, max_size=3), other=_ci,
                    form=st.sampled_from(['all', 'args', 'list', 'empty_list', 'two_fns', 'with_other'])),
         # ---- concatenation
-        'concat': dict(ts=st.lists(_t, min_size=1, max_size=3), form=st.sampled_from(['add', 'add', 'concat_args', 'concat_list', 'sum_start', 'sum0'])),
-        'add_record': dict(t=_t, rec=_record, rec2=_record, src=_t, i=st.integers(0, 30), form=st.sampled_from(['dict', 'Dict', 'row_of', 'concat', 'records'])),
+        'concat': dict(ts=st.lists(_t, min_size=1, max_size=3), form=st.sampled_from(['add', 'add', 'concat_args', 'concat_list', 'sum_start', 'sum0',
+                                                                                      'reordered_add', 'reordered_concat_args', 'reordered_concat_list', 'reordered_sum_start'])),
+        'add_record': dict(t=_t, rec=_record, rec2=_record, src=_t, i=st.integers(0, 30), form=st.sampled_from(['dict', 'Dict', 'row_of', 'concat', 'records', 'records_perm', 'concat_perm', 'sum_perm'])),
         'add_none': dict(t=_t, form=st.sampled_from(['none', 'zero', 'rnone', 'rzero', 'zero_float'])),
         'copy': dict(t=_t, form=st.sampled_from(['copy', 'inc', 'exc', 'ctor', 'copy_module', 'full_slice'])),
     }
@@ -336,15 +370,23 @@ class Tables(object):
             rows.append(r)
         return T(cols, rows)
 
+    def _records_classes(self, recs):
+        keysets = set(tuple(sorted(r)) for r in recs)
+        orders = set(tuple(r) for r in recs if len(r) >= 2)
+        if len(keysets) > 1:
+            self.flags.add('ragged_records')
+            if len(orders) > len(set(tuple(sorted(o)) for o in orders)):
+                self.flags.add('ragged_records_shared_keys_different_order')
+        elif len(orders) > 1:
+            self.flags.add('records_same_keys_different_order')
+
     # ------------------------------------------------------------------ construction
     def op_new_records(self, recs, form):
         from pyg_base import dictable
         self._begin('new_records')
         recs = [{c: build(v) for c, v in r} for r in recs]
         m = T.from_records(recs)
-        keysets = set(tuple(sorted(r)) for r in recs)
-        if len(keysets) > 1:
-            self.flags.add('ragged_records')
+        self._records_classes(recs)
         arg = [dict(r) for r in recs]
         if form == 'list':
             d = self._pure('dictable(%s)' % short(arg, 150), dictable, arg)
@@ -844,10 +886,22 @@ class Tables(object):
         es = [self._pick(t) for t in ts]
         if not es or es[0] is None:
             return self._skip()
-        if sum(e['m'].n for e in es) > MAXROWS:
+        reorder = form.startswith('reordered_')
+        if reorder:
+            form = form[len('reordered_'):]
+        if sum(e['m'].n for e in es) + (es[0]['m'].n if reorder else 0) > MAXROWS:
             return self._skip()
         self._use('concat', *es)
         ds = [e['d'] for e in es]
+        cols = list(dict.keys(ds[0]))
+        if reorder and len(cols) >= 2:
+            # the same table once more with its columns in another order (a projection keeps the order it is given)
+            shift = 1 + ts[0] % (len(cols) - 1)
+            order = cols[shift:] + cols[:shift]
+            d2 = self._pure('d[%s] on %s' % (order, short(raw(ds[0]), 150)), ds[0].__getitem__, list(order))
+            check(type(d2) is type(ds[0]), 'd[%s] returned %s', order, type(d2).__name__)
+            ds = [ds[0], d2] + ds[1:]
+            es = [es[0], es[0]] + es[1:]
         what = '%s of %s' % (form, short([raw(d) for d in ds], 250))
         if form == 'add':
             def f():
@@ -869,6 +923,9 @@ class Tables(object):
             res = self._pure(what, lambda: sum(list(ds)))
         if len(set(tuple(sorted(e['m'].cols)) for e in es)) > 1:
             self.flags.add('concat_diffcols')
+        orders = set(tuple(dict.keys(x)) for x in ds)
+        if len(orders) > len(set(tuple(sorted(o)) for o in orders)):
+            self.flags.add('concat_same_cols_different_order')
         self._add('concat', res, T.concat([e['m'] for e in es]), es, allow_alias=(len(es) == 1))
 
     def op_add_record(self, t, rec, rec2, src, i, form):
@@ -901,10 +958,34 @@ class Tables(object):
             res = self._pure('d + d2[%i] on %s and %s' % (si, rd, short(raw(sd), 120)), lambda: d + sd[si])
         elif form == 'concat':
             res = self._pure('dictable.concat(d, %s) on %s' % (r, rd), lambda: dictable.concat(d, dict(r)))
-        else:
+        elif form == 'records':
             r2 = {c: build(v) for c, v in rec2}
             rm = T.from_records([r, r2])
+            self._records_classes([r, r2])
             res = self._pure('d + %s on %s' % ([r, r2], rd), lambda: d + [dict(r), dict(r2)])
+        else:
+            # two records over the same keys, the second written in another key order, cells distinguishable per column
+            keys = list(r)
+            for c in NAMES:
+                if len(keys) >= 2:
+                    break
+                if c not in keys:
+                    keys.append(c)
+            kind = ['int', 'str', 'float', 'dt', 'mixed'][i % 5]
+            r = {c: build(_cv(c, 0, kind)) for c in keys}
+            shift = 1 + (i // 5) % (len(keys) - 1)
+            keys2 = keys[shift:] + keys[:shift]
+            r2 = {c: build(_cv(c, 1, kind)) for c in keys2}
+            self._records_classes([r, r2])
+            if form == 'records_perm':
+                rm = T.from_records([r, r2])
+                res = self._pure('d + %s on %s' % ([r, r2], rd), lambda: d + [dict(r), dict(r2)])
+            elif form == 'concat_perm':
+                rm = T.concat([T.from_records([r]), T.from_records([r2])])
+                res = self._pure('dictable.concat(d, %s, %s) on %s' % (r, r2, rd), lambda: dictable.concat(d, dict(r), dict(r2)))
+            else:
+                rm = T.concat([T.from_records([r]), T.from_records([r2])])
+                res = self._pure('sum([d, dictable(%s), %s], dictable()) on %s' % (r, r2, rd), lambda: sum([d, dictable(dict(r)), dict(r2)], dictable()))
         if sorted(rm.cols) != sorted(m.cols):
             self.flags.add('concat_diffcols')
         self._add('add_record', res, T.concat([m, rm]), operands)
@@ -1015,11 +1096,13 @@ SUBS = [
                     'six empty forms, misfit lengths), d[c] = / d.c = / update (fit, scalar, length 1, tuple, misfit -> ValueError), del d[c] / del d.c, d[i], d[-i], '
                     'slices, boolean masks (list / array, all False, all True), integer lists (negative, repeated, range, array), d[[cols]], d[c1, c2], d & cols, d - cols, '
                     'inc / exc by value, d[lambda], d(c = lambda) incl. dependent pairs, d(c = value), rename / relabel (kw, dict, prefix, suffix, function, list), '
-                    'do (all, *cols, [cols], [], [f, g], function of another column), + / concat / sum of tables, + record(s), + None / 0, copy / inc() / exc() / dictable(d) / d[:]. '
+                    'do (all, *cols, [cols], [], [f, g], function of another column), + / concat / sum of tables (also of one table and itself with its columns reordered), + record(s) '
+                    '(records over one key set each written in its own key order, cells distinguishable per column; also ragged), + None / 0, copy / inc() / exc() / dictable(d) / d[:]. '
                     'oracle after every step for every live table: rectangular column store, len, shape, keys, columns, dict(d), d[c], iteration, d[i][c] == d[c][i] '
                     '(also negative i) against the model; all live tables unchanged by every non-in-place call; misfit assignment raises ValueError and changes nothing. '
                     'non-trivial = >= 3 operations, a table produced by one rule consumed by another, and an empty table / broadcast / concatenation with differing columns / '
                     'misfit assignment occurs; distinct = distinct history',
                floor=0.5,
-               class_floors={'empty': 0.3, 'broadcast': 0.1, 'concat_diffcols': 0.15, 'misfit': 0.15, 'chain': 0.4, 'mask_to_empty': 0.05}),
+               class_floors={'empty': 0.3, 'broadcast': 0.1, 'concat_diffcols': 0.15, 'misfit': 0.15, 'chain': 0.4, 'mask_to_empty': 0.05,
+                             'records_same_keys_different_order': 0.1, 'concat_same_cols_different_order': 0.03}),
 ]
